@@ -239,6 +239,17 @@ RuleFamily == {
     Bad(ReplyHost, "X_datainstraw", "sv_data_instantiate_with_raw", AddMember(ReplyHost, RH("on_done", "success", <<DataP(A("sv::data", "instantiate, raw")), RawP>>))),
     Bad(ReplyHost, "X_payloadempty", "sv_payload_without_argument", AddMember(ReplyHost, RH("on_done", "success", <<[P("payload", "Binary") EXCEPT !.attrs = <<A("sv::payload", "")>>]>>))),
     Bad(ReplyHost, "X_payloadarg", "unknown_sv_payload_argument", AddMember(ReplyHost, RH("on_done", "success", <<[P("payload", "Binary") EXCEPT !.attrs = <<A("sv::payload", "foo")>>]>>))),
+    \* two methods claiming the same reply name and outcome; merged methods with different payloads
+    Bad(ReplyHost, "X_r_overlap", "two_methods_for_one_reply_name_and_outcome",
+        AddMember(AddMember(ReplyHost, RH2("on_ok", "success", <<P("tag", "Binary")>>)), RH2("on_err", "success", <<P("tag", "Binary")>>))),
+    Bad(ReplyHost, "X_r_overlap_always", "always_method_next_to_another_method_of_the_reply_name",
+        AddMember(AddMember(ReplyHost, RH2("on_ok", "error", <<P("e", "String"), P("tag", "Binary")>>)),
+                  [RH2("on_err", "always", <<P("tag", "Binary")>>) EXCEPT !.params = <<P("r", "SubMsgResult"), P("tag", "Binary")>>])),
+    Bad(ReplyHost, "X_r_payload_types", "merged_methods_with_different_payload_types",
+        AddMember(AddMember(ReplyHost, RH2("on_ok", "success", <<P("tag", "Binary")>>)), RH2("on_err", "error", <<P("e", "String"), P("tag", "u32")>>))),
+    Bad(ReplyHost, "X_r_payload_arity", "merged_methods_with_different_payload_arity",
+        AddMember(AddMember(ReplyHost, RH2("on_ok", "success", <<P("tag", "Binary")>>)),
+                  RH2("on_err", "error", <<P("e", "String"), P("tag", "Binary"), P("more", "u32")>>))),
     \* the same offences in the method declared second for a reply name two methods share
     Bad(ReplyHost, "X_r2_afterraw", "parameter_after_raw_payload_in_second_method",
         AddMember(AddMember(ReplyHost, RH2("on_err", "error", <<P("e", "String"), P("tag", "Binary"), P("note", "Binary")>>)),
@@ -283,6 +294,8 @@ SitesOf(rule) ==
       [] rule \in {"parameter_after_raw_payload_in_second_method", "unknown_sv_payload_argument_in_second_method",
                    "unknown_sv_data_argument_in_second_method"} -> <<"on_ok">>
       [] rule = "parameter_before_raw_payload_in_second_method" -> <<"on_err">>
+      [] rule \in {"two_methods_for_one_reply_name_and_outcome", "always_method_next_to_another_method_of_the_reply_name",
+                   "merged_methods_with_different_payload_types", "merged_methods_with_different_payload_arity"} -> <<"on_ok", "on_err">>
       [] OTHER -> <<>>
 WithSites(it) == it @@ [sites |-> SitesOf(it.rule)]
 
